@@ -1467,9 +1467,11 @@ static void settimeout(char **av)
         tmp = strtol(av[0], &endptr, 10);
         if (errno
             || endptr[0] != '\0'
-            || tmp <= 0)
+            || tmp <= 0
+            || tmp > INT_MAX)
             printf("invalid timeout specified\n");
-        cmd_timeout = tmp;
+        else
+            cmd_timeout = tmp;
     }
 }
 
